@@ -169,6 +169,28 @@ def run(ctx):
             idxl = None
             if len(rdef) == 1 and rdef[0][0] == "assign" and rdef[0][3]["rv"]["k"] == "ref":
                 idxl = next((e["idx"] for e in rdef[0][3]["rv"]["p"].get("pr") or [] if isinstance(e, dict) and "idx" in e), None)
+            if idxl is None and "'values'" in repr(o[2]):
+                # checked access: `match self.values.get(i) { Some(slot) => slot.store(..), None => .. }` — the Some edge of
+                # get(i) is the test i < len, its None edge the negation
+                recv_ = strip_sym(o[2])
+                gets_ = [x for x in sym_walk(recv_) if isinstance(x, tuple) and x and x[0] == "call" and sym_is_call(x, "get") and len(x[2]) == 2 and "'values'" in repr(x[2][0])]
+                if len(gets_) == 1:
+                    if not (sym_is_call(strip_sym(o[3][1]), "to_bits") and is_param(strip_sym(strip_sym(o[3][1])[2][0]), 1)):
+                        okf, whyf = False, "a slot is written with something other than value.to_bits()"
+                        break
+                    ix_ = strip_sym(gets_[0][2][1])
+                    g_ = gates(b, o[0].bb)
+
+                    def _on(getcall_pred, lab_want):
+                        return any(lab == lab_want and sym_is_call(strip_sym(dd), "get") and "'values'" in repr(strip_sym(dd)[2][0]) and getcall_pred(strip_sym(strip_sym(dd)[2][1])) for dd, lab in g_)
+
+                    if "fastrand" in sym_str(ix_):
+                        repls.append(_on(lambda i_: "fastrand" in sym_str(i_), "Some") and _on(lambda i_: offset(i_) == 0 and "fastrand" not in sym_str(i_), "None"))
+                    elif offset(ix_) == 0:
+                        fills.append(_on(lambda i_: offset(i_) == 0 and "fastrand" not in sym_str(i_), "Some"))
+                    else:
+                        okf, whyf = False, f"a slot index that is neither the claimed position nor the drawn one ({sym_str(ix_)[:50]})"
+                    continue
             if idxl is None or "'values'" not in repr(o[2]):
                 okf, whyf = False, "a store whose slot is not values[<index>]"
                 break
@@ -382,6 +404,18 @@ def run(ctx):
             if uw:
                 g = uw[0].t["dest"]["l"]
                 drops = [i for i in range(b.n) if b.term(i)["k"] == "drop" and b.term(i)["p"]["l"] == g and not b.blocks[i].get("cleanup")]
+                # an explicit `drop(guard)` releases the lock just like the implicit drop at the end of the scope
+
+                def _is_guard(l_, depth=0):
+                    if l_ == g:
+                        return True
+                    ds_ = b.defs().get(l_, [])
+                    if depth < 3 and len(ds_) == 1 and ds_[0][0] == "assign" and ds_[0][3]["rv"]["k"] == "use":
+                        src_ = ds_[0][3]["rv"]["a"].get("move") or {}
+                        return not src_.get("pr") and src_.get("l") is not None and _is_guard(src_["l"], depth + 1)
+                    return False
+
+                drops += [c.bb for c in cons.body.calls() if c.is_("mem::drop") and c.args and (c.args[0].get("move") or {}).get("l") is not None and not (c.args[0].get("move") or {}).get("pr") and _is_guard(c.args[0]["move"]["l"]) and not b.blocks[c.bb].get("cleanup")]
                 ok = ok and all(b.dominates(cb[0].bb, d_) for d_ in drops) and bool(drops)
         chk.ob("C16.b", f"{cons.path} [swap under the mutex]", ok, "consume: lock; flip use_primary; drain the previously active side; callback — all under the guard" if ok else "consume does not flip the active side and drain the previous one while holding the swap mutex", cons.loc())
 
